@@ -46,3 +46,12 @@ package keeper
 //@ ensures [minor] category == types.Minor ==> err == nil && pct == 50000 && jail == 600
 //@ ensures [major] category == types.Major ==> err == nil && pct == 1000000 && jail == 9223372036854775807
 //@ ensures [unknown_category_rejected] category != types.Warning && category != types.Minor && category != types.Major ==> err != nil
+
+// ---- privileged handlers (C19) ----
+
+//@ func (k msgServer).UpdateTeam(ctx, msg) (resp, err)
+//@ requires [msg_present] msg != nil
+//@ modifies dispute.Params
+//@ ensures [only_current_team_address] err == nil ==> acc(old(dispute.Params.TeamAddress)) == addrstr(msg.CurrentTeamAddress)
+//@ ensures [rejected_request_changes_nothing] err != nil ==> nothing_written()
+//@ ensures [sets_new_team_address] err == nil ==> acc(dispute.Params.TeamAddress) == addrstr(msg.NewTeamAddress)
